@@ -1052,7 +1052,7 @@ class NumpyModel:
                     fr = fr.closure
                 st.env[expr.id] = new
         elif isinstance(expr, ast.Attribute):
-            b = interp.value_of(expr.value)
+            b = interp.cur(expr.value)
             if b is not None and b.ty == 'obj' and b.oid in st.heap:
                 st.heap[b.oid][expr.attr] = new
 
